@@ -93,6 +93,14 @@ def phase2_grid(tier):
                             for br in (False, True):
                                 yield {"fam": fam, "x0": x0, "limits": limit_settings(x0)[lname], "tol": tol, "kw": kw, "tw": None,
                                        "nsm": 20, "broyden": br, "dv": (), "dt": (), "lname": lname, "phase2": x1}
+    # a target is disabled, a short first solve fails (its restore re-activates the target), then a full solve on the same object
+    for fam in ("coupled", "trig", "sepquad", "lin_tall", "lin3"):
+        F = O.FAMILIES[fam]
+        for x0 in starts(fam)[:2]:
+            for j in range(F["nt"]):
+                for kw in (None, KW_MIXED[:F["nk"]]):
+                    yield {"fam": fam, "x0": x0, "limits": None, "tol": 1e-9, "kw": kw, "tw": None, "nsm": 20, "broyden": False,
+                           "dv": (), "dt": (j,), "lname": "none", "phase2": (), "phase2_flag": True, "phase1_steps": 1, "phase2_steps": 20}
     # the optimizer is re-used after the user changed tolerances or target values; knobs stay where the first solve left them
     # (phase2 = None-like: same knobs), with 0, 1 or 20 further steps
     for fam in fams:
@@ -140,7 +148,10 @@ def run_solve(spec, fail_at=None):
     if spec.get("phase2") or spec.get("phase2_flag"):
         # the optimizer is re-used: a first solve (any outcome), then the user moves the knobs and solves again briefly
         try:
-            p.opt.solve()
+            if spec.get("phase1_steps") is not None:
+                p.opt.solve(n_steps=spec["phase1_steps"])
+            else:
+                p.opt.solve()
         except Exception:  # noqa
             pass
         row0 = p.log_rows()[0]
